@@ -79,7 +79,7 @@ def export(exe, rundir, prop):
     if rc != 0:
         return None
     p = subprocess.run([os.path.join(_llvm_bin(), "llvm-cov"), "export", "-format=lcov", "-instr-profile=" + prof, exe,
-                        "-ignore-filename-regex=^(?!%s/)" % re.escape(vp.REPO)], stdout=subprocess.PIPE, stderr=subprocess.PIPE, timeout=600)
+                        "-ignore-filename-regex=^/(root|rustc|verif)/"], stdout=subprocess.PIPE, stderr=subprocess.PIPE, timeout=600)
     if p.returncode != 0:
         return None
     return p.stdout.decode("utf-8", "replace")
@@ -90,7 +90,8 @@ def parse_lcov(text):
     files, cur = {}, None
     for ln in text.splitlines():
         if ln.startswith("SF:"):
-            cur = files.setdefault(ln[3:], {"lines": {}, "branches": {}})
+            # only the code under test (the export also lists the harness and inlined std code)
+            cur = files.setdefault(ln[3:], {"lines": {}, "branches": {}}) if ln[3:].startswith(vp.REPO + "/src/") else None
         elif cur is None:
             continue
         elif ln.startswith("DA:"):
